@@ -27,6 +27,23 @@ def spec(name, layout, prs, queue=False, depth=None, options=BYPASS_REVIEW,
     return s
 
 
+def backport_spec(queue, depth):
+    """A fix already merged on the later versions is proposed, from the
+    same source branch, to an earlier one: its integration branches are born
+    in sync with what the destinations contain (integration pull requests
+    off: the mock host would show them merged at once)."""
+    init = [['open', PR1, 'development/5.1', AUTHOR, None, None,
+             'development/4.3'], ['approve', 1, PEER1], ['eval_pr', 1],
+            ['ci_int', 1, 'SUCCESSFUL'], ['eval_pr', 1]]
+    if queue:
+        init += [['ci_q_all', 'SUCCESSFUL'], ['eval_pr', 1]]
+    init += [['open_raw', PR1, 'development/4.3']]
+    return spec('c10-backport-%s-D3' % ('q' if queue else 'noq'), 'D3', [],
+                queue=queue, depth=depth, options=['bypass_jira_check'],
+                cfg={'int_prs': False, 'peers': 1, 'need_author': False},
+                approvers=[PEER1], init=init, statuses_q=['SUCCESSFUL'])
+
+
 def specs(tier):
     cmds = [[AUTHOR, '@robot reset', 2], [AUTHOR, '@robot help', 1],
             [PEER1, '@robot bypass_peer_approval', 1],
@@ -43,9 +60,11 @@ def specs(tier):
              approvers=[PEER1], change_requesters=['carol'],
              statuses_int=['SUCCESSFUL', 'FAILED'], decline=True,
              eval_int_commits=True),
+        backport_spec(True, 2 if tier == 'quick' else 4),
     ]
     if tier == 'thorough':
         out += [
+            backport_spec(False, 4),
             spec('c10-two-prs-q-S3', 'S3',
                  [(PR1, 'stabilization/4.3.18'), (PR2, 'development/4.3')],
                  queue=True, depth=7, eval_int_commits=True,
